@@ -15,18 +15,22 @@ CLAIM = {
             "tied to pointer.py differentially over the property's complete grid, and the implementation is compared with the executable "
             "draft specification on every case.",
     "note": "Trusted: Lean kernel; model JP.RelPointer validated differentially; unicode-escape codec abstract. An offset applied to a final "
-            "token that is not an array index is left unchanged by code and spec alike (the property does not constrain it); a suffix with trailing blanks is stripped (excluded).",
+            "token that is not an array index is left unchanged by code and spec alike (the property does not constrain it); blank space at the end of a suffix belongs to its last token.",
     "technique": "Lean 4 refinement proof (RelativeJSONPointer model vs draft spec on tokens) + differential correspondence",
 }
 RULE = ("grid: base pointers of depth <= 2 (quick) / <= 3 (thorough) complete over tokens {a 0 2 10 é a/b ~}, deeper sampled; "
         "origin 0..depth+1; offset in {none,+-1,+-2,+-10,+-12}; suffix in {'', '#', /x, /a~1b, /é, /0, /~0}; plus a malformed stream; "
-        "non-trivial = non-empty base or non-empty suffix")
+        "bases that exist already (built from parts, tokens with backslashes / percent signs / blanks at either end), applied through every form and compared with the draft on tokens; "
+        "bases with negative index tokens (model only); non-trivial = non-empty base or non-empty suffix")
 TRUSTED = ["Lean 4.33 kernel; standard axioms only", "model JP/RelPointer.lean tied to pointer.py by this differential run"]
-ASSUMPTIONS = ["no backslashes (escape decoding is abstract)", "suffix pointers without trailing blanks"]
+ASSUMPTIONS = ["no backslashes in pointer *texts* (escape decoding is abstract); tokens of bases that exist already may hold any characters",
+               "negative index tokens in a base (the library's extension) are compared with the model only"]
 
 BASE_TOKENS = ["a", "0", "2", "10", "é", "a/b", "~", "50%25"]
 OFFSETS = [0, 1, -1, 2, -2, 10, -10, 12, -12]
-SUFFIXES = [(False, []), (True, []), (False, ["x"]), (False, ["a/b"]), (False, ["é"]), (False, ["0"]), (False, ["~", ""]), (False, ["x\ny", "z"]), (False, ["x%2Fy", "%7E"]), (False, ["a\n", "\tb"])]      # blanks at the very ends of the suffix are stripped by the parser (documented leniency, outside the property)
+SUFFIXES = [(False, []), (True, []), (False, ["x"]), (False, ["a/b"]), (False, ["é"]), (False, ["0"]), (False, ["~", ""]), (False, ["x\ny", "z"]), (False, ["x%2Fy", "%7E"]), (False, ["a\n", "\tb"]),
+            # blank space at the end of the suffix belongs to its last token (it used to be stripped: fixed in 6f06955)
+            (False, ["foo "]), (False, ["a", "\u3000"]), (False, ["x", " "]), (False, ["y\n"])]
 MALFORMED = ["", "abc", "-1", "+1", "00", "01/a", "0+0", "0-0", "0+01", "0+", "0-", "0+/a", "1 #", " 1", "1#x", "0##", "0a",
              "0/a ", "0 /a", "1" * 30, "0+" + "1" * 25, "１", "0+１", "0-1#", "2-12/x/y", "0\\u0023", "0/a\\", "1" * 4301, "0+" + "2" * 4301, "0\n", "0\n/a", "1\n#", "0#\n", "0+1\n", "\n0", "0/a\n"]
 
@@ -57,6 +61,19 @@ def gen(ctx):
         for off in (0, 1, -1):
             for is_hash, suf in SUFFIXES[:4]:
                 cases.append({"kind": "grid", "base": list(long_base), "origin": origin, "offset": off, "hash": is_hash, "suffix": suf})
+    # bases that exist already, with tokens no pointer text can spell under escape decoding, or that decoding would change
+    odd = ["\\u0041", "a\\", "\\", "%41", "50%2541", " lead", "trail ", "\u3000", "\\n", "\\u00e9\\u00e9", "x\\/y", "2", "0", "a"]
+    for b in [(t,) for t in odd] + [(t, u) for t in odd[:8] for u in ("2", "a", "\\u0042")] + [("a", "3", t) for t in odd[:6]]:
+        for origin in range(0, len(b) + 1):
+            for off in (0, 1, -1, -12):
+                for is_hash, suf in (SUFFIXES[0], SUFFIXES[1], SUFFIXES[2], SUFFIXES[-4]):
+                    cases.append({"kind": "parts", "base": list(b), "origin": origin, "offset": off, "hash": is_hash, "suffix": suf})
+    # negative index tokens in the base (the library's extension): an offset that leaves the index negative is refused
+    for b in [("-1",), ("a", "-1"), ("a", "-3"), ("-3", "b"), ("a", "-12"), ("-2", "-2")]:
+        for origin in range(0, len(b) + 1):
+            for off in OFFSETS:
+                for is_hash, suf in SUFFIXES[:3]:
+                    cases.append({"kind": "negbase", "base": list(b), "origin": origin, "offset": off, "hash": is_hash, "suffix": suf})
     for s in MALFORMED:
         for b in [(), ("a",), ("a", "2")]:
             cases.append({"kind": "malformed", "base": list(b), "text": s})
@@ -70,9 +87,14 @@ def evaluate(ctx, cases):
     for c in cases:
         base_s = G.rfc6901_spell(c["base"])
         text = c["text"] if c["kind"] == "malformed" else rel_text(c["origin"], c["offset"], c["hash"], c["suffix"])
+        if c["kind"] == "parts":
+            reqs.append({"op": "rel.toparts", "s": text, "base": c["base"], "ue": True}); meta.append((c, "toparts", text, base_s))
+            reqs.append({"op": "rel.spec", "origin": c["origin"], "offset": c["offset"], "hash": c["hash"], "suffix": c["suffix"], "base": c["base"]})
+            meta.append((c, "spec", text, base_s))
+            continue
         reqs.append({"op": "rel.parse", "s": text, "ue": True}); meta.append((c, "parse", text, base_s))
         reqs.append({"op": "rel.to", "s": text, "base": base_s, "ue": True}); meta.append((c, "to", text, base_s))
-        if c["kind"] == "grid":
+        if c["kind"] == "grid":        # "negbase" is compared with the model only
             reqs.append({"op": "rel.spec", "origin": c["origin"], "offset": c["offset"], "hash": c["hash"], "suffix": c["suffix"], "base": c["base"]})
             meta.append((c, "spec", text, base_s))
     outs = ctx.driver.run(reqs, jobs=ctx.jobs)
@@ -90,6 +112,31 @@ def evaluate(ctx, cases):
                 ctx.violation("printing a parsed relative pointer must return its text", {"text": text, **c}, impl, {"ok": text})
             if "err" in o and o.get("family") not in ("relpointer", "pointer"):
                 ctx.violation("a relative pointer text must be accepted or rejected with a pointer error", {"text": text}, o["err"], "pointer error family")
+        elif what == "toparts":
+            ctx.case((text, "parts", tuple(c["base"])), True, sample={"base tokens": c["base"], "rel": text})
+            ctx.count("kind:parts")
+            mk = lambda: JSONPointer.from_parts(c["base"], unicode_escape=False)   # noqa: E731
+            o = core.outcome(lambda: str(RelativeJSONPointer(text).to(mk())))
+            impl = {"ok": o["ok"]} if "ok" in o else {"err": o["err"]}
+            impl_cache[id(c)] = {"to": impl}
+            if impl != m["str"]:
+                ctx.mismatch("rel.toparts", {"text": text, "base tokens": c["base"]}, impl, m["str"])
+            if "err" in o and o.get("family") not in ("relpointer", "pointer"):
+                ctx.violation("applying a relative pointer may only fail with a pointer error", {"text": text, "base tokens": c["base"]}, o["err"], "pointer error family")
+            forms = {
+                "base.to(text)": lambda: mk().to(text),
+                "base.to(RelativeJSONPointer(text))": lambda: mk().to(RelativeJSONPointer(text)),
+                "base.to('0').to(text)": lambda: mk().to("0").to(text),
+                "(base / 'extra').to('1').to(text)": lambda: (mk() / "extra").to("1").to(text),
+            }
+            for name, fn in forms.items():
+                r = core.outcome(lambda: str(fn()))
+                ri = {"ok": r["ok"]} if "ok" in r else {"err": r["err"]}
+                if ri != impl:
+                    ctx.violation("every way of applying a relative pointer to a base must give the same pointer", {"text": text, "base tokens": c["base"], "form": name}, ri, impl)
+            ident = core.outcome(lambda: [str(x) for x in RelativeJSONPointer("0").to(mk()).parts])
+            if ident.get("ok") != [str(x) for x in c["base"]]:
+                ctx.violation("applying the relative pointer 0 must give the base pointer itself", {"base tokens": c["base"]}, ident.get("ok", ident.get("err")), c["base"])
         elif what == "to":
             o = core.outcome(lambda: str(JSONPointer(base_s).to(text)))
             impl = {"ok": o["ok"]} if "ok" in o else {"err": o["err"]}
